@@ -10,7 +10,8 @@ for id in "${ids[@]}"; do
   props=$(python3 -c "
 import json
 m=json.load(open('$d/meta.json'))
-print(' '.join(sorted({c.split('/')[0] for c in m['caught_by']})))")
+import re
+print(' '.join(sorted({t for c in m['caught_by'] for t in re.findall(r'C[0-9][0-9]', c.split('/')[0])})))")
   if ! git -C /repo apply --check $d/patch.diff 2>/dev/null; then echo "$id: patch no longer applies (skipped)"; continue; fi
   out=$(tools/seedtest.sh $d/patch.diff $props 2>&1 | grep -v "WARNING conda")
   bad=$(echo "$out" | grep -c "exit=0")
